@@ -219,6 +219,7 @@ func c02Apply(ctx context.Context, rep *verifkit.Report, sc *c02Scenario, recv *
 func TestVerifC02(t *testing.T) {
 	rep := verifkit.NewReport("C02", "c02-ratchet")
 	defer rep.Finish(t)
+	defer vRetainedCheck(rep, "C02")
 	rep.Rule = "exhaustive: every operation sequence up to the stated depth over {open(k) for each of the n sealed messages, register, re-register(same), re-register(older)} " +
 		"on a real receiver store per window size, judged step by step by the window model; random: windows 100 with up to 300 messages and 1-3 interleaved senders. " +
 		"distinct = operation-sequence prefixes (tree nodes) / random histories"
